@@ -303,8 +303,21 @@ def gen_mutate(rng, profile):
                                   ["h.data", 0]]
             live.update({0, 1})
             nh = 1
+    if profile == "handles" and not script and isinstance(doc, dict) and rng.random() < 0.1:
+        # a comma list with int entries over a dict whose member *names* spell those numbers: an int names no dict
+        # member, so the matches (and what is written through them) are the string-named ones listed
+        key = rng.choice(gen.KEYS)
+        doc[key] = {"1": 10, "x": [20], "-1": {"a": 30}, "0": None}
+        sc["doc"] = enc(doc)
+        shadow = copy.deepcopy(doc)
+        ents = rng.choice([[1, "x"], [0, -1, "1"], ["x", 1, "-1"], [1, 0, -1]])
+        script = [["h.new", 0, [["k", key], ["t", ents]], 0], ["h.new", 1, [["k", key], ["t", ents]], 1],
+                  rng.choice([["h.assign", 0, ["new", 7]], ["h.pop", 0, ["none"]], ["h.del", 0]]), ["h.data", 0],
+                  rng.choice([["h.assign", 1, ["new", 8]], ["h.pop", 1, ["val", ["new", "d"]]], ["h.data", 1]])]
+        live.update({0, 1})
+        nh = 1
     prev_paths = []
-    for _ in range(nops):
+    for _ in range(max(nops, len(script))):
         r = rng.random()
         if script:
             op = script.pop(0)
